@@ -267,8 +267,12 @@ def _compare_shard(args):
     diffs = []
     ndiff = 0
     diffed = set()
+    unmodelled = 0
     for i, im in enumerate(impl):
         mo = model.get(i)
+        if mo == 'UNMODELLED':
+            unmodelled += 1
+            continue
         if mo is None or mo != im:
             # a history diverges once: later differences of the same case are consequences of the first
             if case_of[i] in diffed:
@@ -300,7 +304,7 @@ def _compare_shard(args):
                 cur.append(line)
     return dict(results=len(impl), records=records, distinct=len(hashes), nontrivial=nontrivial, ndiff=ndiff,
                 diffs=diffs, mon_fail=mon_fail, mon_count=mon_count, ctx=ctx, samples=samples, notes=notes,
-                missing_model=missing_model, hashes=[h.hex() for h in list(hashes)[:200000]])
+                missing_model=missing_model, unmodelled=unmodelled, hashes=[h.hex() for h in list(hashes)[:200000]])
 
 
 def run_suite(name, tier, seed, workdir, replay_lines=None):
@@ -358,10 +362,10 @@ def run_suite(name, tier, seed, workdir, replay_lines=None):
         parts = [_compare_shard(j) for j in jobs]
     allh = set()
     tot = dict(suite=name, results=0, records=0, nontrivial=0, ndiff=0, diffs=[], mon_fail=[], mon_count={},
-               samples=[], notes=[], errors=errs, missing_model=0,
+               samples=[], notes=[], errors=errs, missing_model=0, unmodelled=0,
                t_harness=round(t1 - t0, 2), t_driver=round(t2 - t1, 2))
     for part in parts:
-        for k in ('results', 'records', 'nontrivial', 'ndiff', 'missing_model'):
+        for k in ('results', 'records', 'nontrivial', 'ndiff', 'missing_model', 'unmodelled'):
             tot[k] += part[k]
         allh.update(part['hashes'])
         for d in part['diffs']:
@@ -481,7 +485,7 @@ def check(prop, tier, seed):
             distinct += res['distinct']
             nontrivial += min(res['nontrivial'], res['distinct'])
             samples += res['samples']
-            coverage_suites.append({k: res[k] for k in ('suite', 'results', 'records', 'distinct', 'nontrivial', 'ndiff',
+            coverage_suites.append({k: res[k] for k in ('suite', 'results', 'records', 'distinct', 'nontrivial', 'ndiff', 'unmodelled',
                                                         'mon_count', 'notes', 't_harness', 't_driver', 't_compare')})
             log('[suite %s] %d results, %d distinct cases, %d model/impl differences, monitors %s (%.1fs harness, %.1fs model, %.1fs compare)'
                 % (s, res['results'], res['distinct'], res['ndiff'], json.dumps(res['mon_count']), res['t_harness'], res['t_driver'], res['t_compare']))
